@@ -24,7 +24,7 @@ MIN_EVENTS = {'quick': {'bindings_compared': 3000}, 'thorough': {'bindings_compa
 
 
 def plan(tier, seed):
-    return {'cases': 460 if tier == 'quick' else 6000, 'watchdog_s': 1500 if tier == 'quick' else 7200}
+    return {'cases': 540 if tier == 'quick' else 6000, 'watchdog_s': 1500 if tier == 'quick' else 7200}
 
 
 def make_case(seed, tier):
@@ -34,7 +34,7 @@ def make_case(seed, tier):
     knobs.members = r.choice([3, 5, 8])
     knobs.ns_depth = r.choice([1, 2, 3]) if tier == 'quick' else r.choice([1, 2, 3, 5])
     g = gen.WildGen(seed, knobs, typedefs=True, param_use=0.3, this_use=0.08, special_names=0.25,
-                    typedef_same_ns=True, class_enum_ignore_safe=True, reopen_ns=0.35, overloads=0.2, enum_namesakes=0.25)
+                    typedef_same_ns=True, class_enum_ignore_safe=True, reopen_ns=0.35, overloads=0.2, enum_namesakes=0.25, ns_namesakes=0.3)
     mod = g.module()
     # options
     paths = [()]
